@@ -125,35 +125,79 @@ def classifier_tables(rep, F, rule='R-TABLE'):
             continue
         normal_fn = F.fns.get('parsing::parse_from_' + m.group(1))
         normal_handles_subnormal = normal_fn is not None and any('subnormal' in (t['callee'].get('resolved') or '') for b, t in normal_fn.calls())
+        W = m.group(1)
+        fmax = 3.4028234663852886e38 if W == 'f32' else 1.7976931348623157e308
+        tiny = 1e-45 if W == 'f32' else 5e-324
+        minpos = 1.1754943508222875e-38 if W == 'f32' else 2.2250738585072014e-308
+        inf = float('inf')
+        # representatives of each category (both signs): guards written as float comparisons are decided on them
+        samples = {'Nan': [float('nan')], 'Infinite': [inf, -inf], 'Zero': [0.0, -0.0], 'Subnormal': [tiny, -tiny],
+                   'Normal': [1.5, -1.5, fmax, -fmax, minpos, -minpos]}
+        consts = {'MAX': fmax, 'MIN': -fmax, 'INFINITY': inf, 'NEG_INFINITY': -inf, 'MIN_POSITIVE': minpos, 'NAN': float('nan'), 'EPSILON': 1e-7}
+
+        class FloatEv(TB.Evaluator):
+            def ev(self, t):
+                t = TB.deref(t)
+                if t in self.env:
+                    return self.env[t]
+                if t[0] == 'named':
+                    nm = str(t[1]).rsplit('::', 1)[-1]
+                    if nm in consts:
+                        return consts[nm]
+                if t[0] == 'lit' and t[1]:
+                    mm = re.match(r'^const (-?[0-9.eE+-]+)(_?f32|_?f64)$', t[1])
+                    if mm:
+                        return float(mm.group(1))
+                if t[0] == 'call' and re.search(r'::abs$', TB._plain(t[1])) and t[2]:
+                    return abs(self.ev(t[2][0]))
+                if t[0] == 'un' and t[1] == 'Neg':
+                    return -self.ev(t[2])
+                if t[0] == 'bin' and t[1] in ('Lt', 'Le', 'Gt', 'Ge', 'Eq', 'Ne'):
+                    a, b = self.ev(t[2]), self.ev(t[3])
+                    if isinstance(a, float) or isinstance(b, float):
+                        return int({'Lt': a < b, 'Le': a <= b, 'Gt': a > b, 'Ge': a >= b, 'Eq': a == b, 'Ne': a != b}[t[1]])
+                return TB.Evaluator.ev(self, t)
+
         for cat in CATS:
             n += 1
-            env = {}
-            if cls is not None:
-                env[cls] = ('variant', 'FpCategory', cat)
-            for term_, which in preds.items():
-                env[term_] = int({'is_nan': cat == 'Nan', 'is_infinite': cat == 'Infinite', 'is_finite': cat not in ('Nan', 'Infinite'),
-                                  'is_normal': cat == 'Normal', 'is_subnormal': cat == 'Subnormal'}[which])
-            ev = TB.Evaluator(F.raw['enums'], env)
             key = '%s:FpCategory::%s' % (fn.key, cat)
-            try:
-                atoms, out = ev.select(paths)
-            except Undecided as e:
-                rep.undecided(rule, key, str(e), fn.where())
+            outs = set()
+            und = None
+            for x in samples[cat]:
+                env = {TB.T('param', 1): x}
+                if cls is not None:
+                    env[cls] = ('variant', 'FpCategory', cat)
+                for term_, which in preds.items():
+                    env[term_] = int({'is_nan': cat == 'Nan', 'is_infinite': cat == 'Infinite', 'is_finite': cat not in ('Nan', 'Infinite'),
+                                      'is_normal': cat == 'Normal', 'is_subnormal': cat == 'Subnormal'}[which])
+                ev = FloatEv(F.raw['enums'], env)
+                try:
+                    atoms, out = ev.select(paths)
+                    outs.add((TR.outcome_class(out), x))
+                except Undecided as e:
+                    und = e
+            if und is not None and not outs:
+                rep.undecided(rule, key, str(und), fn.where())
                 continue
-            oc = TR.outcome_class(out)
-            if cat in ('Nan', 'Infinite'):
-                ok = oc.startswith('Err')
-                want = 'Err(..)'
-            elif cat == 'Subnormal':
-                ok = oc.startswith('Ok(call:') and ('subnormal' in oc or (normal_handles_subnormal and 'parse_from_' + m.group(1) in oc))
-                want = 'Ok(subnormal routine)'
+            bad_ = None
+            for oc, x in sorted(outs, key=str):
+                if cat in ('Nan', 'Infinite'):
+                    ok = oc.startswith('Err')
+                    want = 'Err(..)'
+                elif cat == 'Subnormal':
+                    ok = oc.startswith('Ok(call:') and ('subnormal' in oc or (normal_handles_subnormal and 'parse_from_' + m.group(1) in oc))
+                    want = 'Ok(subnormal routine)'
+                else:
+                    ok = oc.startswith('Ok(call:') and 'subnormal' not in oc and 'parse_from_' + m.group(1) in oc
+                    want = 'Ok(normal routine)'
+                if not ok:
+                    bad_ = (oc, x, want)
+            if bad_:
+                rep.violation(rule, key, 'classifier maps %s (representative %r) to %s; must be %s' % (cat, bad_[1], bad_[0], bad_[2]), fn.where())
+            elif und is not None:
+                rep.undecided(rule, key, 'some representatives of the category are not decided: %s' % und, fn.where())
             else:
-                ok = oc.startswith('Ok(call:') and 'subnormal' not in oc and 'parse_from_' + m.group(1) in oc
-                want = 'Ok(normal routine)'
-            if ok:
-                rep.ok(rule, key, 'outcome %s' % oc, fn.where())
-            else:
-                rep.violation(rule, key, 'classifier maps %s to %s; must be %s' % (cat, oc, want), fn.where())
+                rep.ok(rule, key, 'outcome %s for %d representative(s)' % (sorted({o for o, _ in outs})[0], len(outs)), fn.where())
     return n
 
 
